@@ -247,8 +247,13 @@ class CommHandler:
         channels: list[DeviceChannel] = []
         for i in range(frame.chmax):
             chan = None
+            retries = 5
             while chan is None:
+                if retries < 0:
+                    # device does not respond - give up
+                    return None
                 chan = self._nxslib_chinfo(i)
+                retries -= 1
 
             logger.info("chan %d %s", i, str(chan))
             channels.append(chan)
